@@ -1498,6 +1498,18 @@ func c17R11(p *core.Prog, r *core.Report) {
 					if !ok {
 						return false
 					}
+					failSucc0 := from.Succs[0]
+					if neq != pol {
+						failSucc0 = from.Succs[1]
+					}
+					// the very value whose nil edge the walk started on is nil on every later test as well
+					// (`for err != nil && i < n { … }; if err != nil { return }` tests the header's phi twice)
+					if ifi0, ok0 := core.LastInstr(start[0]).(*ssa.If); ok0 {
+						c0, _ := core.StripNot(ifi0.Cond, true)
+						if x0, _, isNil0 := errCmpNil(c0); isNil0 && x0 == x {
+							return to == failSucc0
+						}
+					}
 					ph, ok := x.(*ssa.Phi)
 					if !ok || ph.Block() != from {
 						return false
